@@ -1,6 +1,7 @@
 import ServiceModel.Proofs.Reachable
 import ServiceModel.Proofs.CtxOrigin
 import ServiceModel.Proofs.OneShot
+import ServiceModel.Proofs.Cadence
 /-!
 # C10 — Repeated invocations keep their cadence and respect their total (state part)
 -/
@@ -106,5 +107,33 @@ theorem one_shot_at_most_one_batch (hc : CfgOK cfg p) {s : State} (hr : Reachabl
     (c : CtxId) (x : Ctx) (hx : Map.get s.ctxs c = some x) (hrep : x.rep = false) :
     x.batch ≤ 1 ∧ (((Map.get s.newH c).isSome ∨ x.state = .paused) → x.batch = 0) :=
   kinv_reachable hc hr c x hx hrep
+
+/-! ### cadence over whole histories
+
+`GReach` runs the machine together with a ghost observer (`Proofs/Cadence.lean`, `gstep`): whenever the new-batch
+handler advances a context's batch counter (a batch is issued or skipped) at height `h`, the observer records
+`last c := h`; the record is dropped by an accepted pause / start / kill / update aimed at `c` and when the
+handler does not start a batch for its due entry (the context is paused for lack of funds, is not running, or is
+finished) — i.e. it is kept exactly while the context stayed running with unchanged timeout and frequency.
+When a batch starts for a context with a record `L` at a height other than `L + frequency`, the observer raises
+`bad`. The observer never influences the state (`GReach.state_reachable`, `reachable_has_ghost`). -/
+
+/-- Cadence, over every history: a batch of a context that stayed running with unchanged timeout and frequency
+    since its previous batch never starts anywhere but exactly `frequency` blocks after that previous batch. -/
+theorem cadence_never_broken (hc : CfgOK cfg p) {s : State} {g : Ghost} (hr : GReach cfg p h0 t0 s g) :
+    g.bad = false := (cad_reachable hc hr).1
+
+/-- … and in between, such a context is running and on schedule: its batch started at `L` expires at `L + timeout`,
+    or (after that expiry) its next batch is queued for `L + frequency`. -/
+theorem tracked_context_on_schedule (hc : CfgOK cfg p) {s : State} {g : Ghost} (hr : GReach cfg p h0 t0 s g)
+    (c : CtxId) (L : Int) (x : Ctx) (hL : Map.get g.last c = some L) (hx : Map.get s.ctxs c = some x) :
+    x.state = .running ∧
+      (Map.get s.expH c = some (L + x.timeout) ∨ Map.get s.newH c = some (L + (x.freq : Int))) :=
+  ((cad_reachable hc hr).2 c L hL).2 x hx
+
+/-- The handler-level fact behind it: in a state satisfying the invariants, with every tracked context on schedule,
+    the new-batch handler of any queue entry leaves the flag down. -/
+theorem new_batch_handler_keeps_cadence (s : State) (c : CtxId) (h : Inv s) (g : Ghost) (hk : CadOK s g) :
+    (gNew g s c).bad = false := (newBatch_cad s c h g hk).1
 
 end SM.C10
